@@ -176,7 +176,7 @@ def run_check(mod, tier, seed, workers=None, only_case=None):
     # same observation (a mismatch is a harness error, never a verdict)
     if only_case is None and n:
         heavy_f = getattr(mod, 'heavy', None)
-        again = [(i, c) for i, c in indexed if not (heavy_f and heavy_f(c))][:int(os.environ.get('VERIF_RECHECK', '25'))]
+        again = [(i, c) for i, c in indexed if not (heavy_f and heavy_f(c))][:int(os.environ.get('VERIF_RECHECK', str(getattr(mod, 'RECHECK', 25))))]
         _winit(mod.__name__)
         mismatches = []
         for i, c in again:
